@@ -37,7 +37,7 @@ ASSUMPTIONS = [
 ]
 REQUIRED_CELLS = {'quick': ['op:write', 'op:total', 'op:T', 'op:P', 'op:phase', 'op:phases', 'op:link', 'op:unlink',
                             'op:copy_like', 'op:reset_thermo', 'op:proxy', 'op:flow_proxy', 'op:dim_error',
-                            'op:read_key', 'op:get_property', 'op:assign', 'op:reset_flow', 'reset_flow:kind=S', 'reset_flow:kind=M', 'reset_flow:dim=vol', 'assign:vol-different-conditions', 'write:view=mass', 'write:view=vol', 'write:via=sub',
+                            'ctor:S,total=1,units=nonbase', 'ctor:M,total=1,units=nonbase', 'ctor:M,total=1,units=none', 'op:read_key', 'op:get_property', 'op:assign', 'op:reset_flow', 'reset_flow:kind=S', 'reset_flow:kind=M', 'reset_flow:dim=vol', 'assign:vol-different-conditions', 'write:view=mass', 'write:view=vol', 'write:via=sub',
                             'phases:S->M', 'phases:M->M', 'phases:M->S', 'link:full', 'link:partial'],
                   'thorough': []}
 
@@ -1131,6 +1131,80 @@ def prop_history(ch, ctx):
         ctx.nontriv([spec_a['kind'], spec_b['kind'], run.hist])
 
 
+def prop_ctor(ch, ctx):
+    """Construction with ``units`` and ``total_flow``: the named flows are in ``units``, ``total_flow`` is in ``units``
+    too and rescales them keeping the composition; afterwards every view / unit clause of the invariant holds."""
+    M.reset_case()
+    kind = ch.choice('kind', ['S', 'M'])
+    pkg = ch.choice('pkg', list(chem.PACKAGES)); pk = Pk(pkg); th = chem.package(pkg)
+    T = ch.float('T', *M.T_RANGE); P = ch.logfloat('P', 4, 6.69)
+    unit = ch.choice('unit', [None] + M.ALL_UNITS)
+    dim = 'mol' if unit is None else M.UNIT_DIM[unit]
+    f = 1.0 if unit is None else M.UNIT_FACTOR[unit]
+    run = Run(ch, ctx)
+    def draw_flows(tag):
+        idx = sorted(ch.subset(tag + '.chems', list(range(pk.n)), min_size=0, max_size=min(4, pk.n)))
+        return idx, [run.value(f'{tag}.v{i}') for i in idx]
+    if kind == 'S':
+        label = ch.choice('phase', list(M.ALL_PHASES))
+        spec = {label: draw_flows('f')}
+        labels = [label]
+    else:
+        keys = ch.subset('flow.phases', list(M.ALL_PHASES), min_size=0, max_size=3)
+        spec = {q: draw_flows(f'f.{q}') for q in keys}
+        spec = {q: iv for q, iv in spec.items() if iv[0]}
+        given = ch.bool('phases.given')
+        if given:
+            labels = M.sort_phases(list(spec) + ch.subset('phases.extra', list(M.ALL_PHASES)))
+            if len(labels) < 2: labels = M.sort_phases(labels + ['l', 'g'])
+        else:
+            labels = M.sort_phases(list(spec) + ['l', 'g'])
+    positive = any(v for idx, vals in spec.values() for v in vals)
+    total = ch.logfloat('total', -2, 4) if (positive and ch.bool('total.given')) else None
+    utag = 'none' if unit is None else ('base' if f == 1.0 else 'nonbase')
+    region = f'ctor={kind},total_flow={int(total is not None)},units={utag},dim={dim}'
+    if kind == 'S':
+        idx, vals = spec[label]
+        kw = {pk.names[i]: v for i, v in zip(idx, vals)}
+        real = ctx.call('ctor', lambda: tmo.Stream(None, phase=label, T=T, P=P, units=unit, total_flow=total, thermo=th, **kw), region=region)
+        sm = M.SM('a', M.Ix(pkg, 'S', [], M.DataCell([np.zeros(pk.n)]), M.PhCell(label)), M.TCCell(T, P), 'S')
+    else:
+        kw = {q: [(pk.names[i], v) for i, v in zip(idx, vals)] for q, (idx, vals) in spec.items()}
+        real = ctx.call('ctor', lambda: tmo.MultiStream(None, T=T, P=P, phases=(tuple(labels) if given else None), units=unit,
+                                                       total_flow=total, thermo=th, **kw), region=region)
+        sm = M.SM('a', M.Ix(pkg, 'M', labels, M.DataCell([np.zeros(pk.n) for _ in labels])), M.TCCell(T, P), 'M')
+    ctx.cell('ctor:' + kind); ctx.cell(f'ctor:{kind},total={int(total is not None)},units={utag}')
+    for q, (idx, vals) in spec.items():
+        row = sm.row_of(q)
+        for i, v in zip(idx, vals):
+            row[i] = sm.to_mol(dim, q, i, v / f) if v else 0.0
+    scale = 1.0
+    if total is not None:
+        given_sum = sum(v for idx, vals in spec.values() for v in vals)
+        scale = total / given_sum
+        for r in sm.rows(): r *= scale
+    run.live.append(('a', real, sm)); run.pc['a'] = PC()
+    u = unit or 'kmol/hr'
+    for q, (idx, vals) in spec.items():
+        if not idx: continue
+        IDs = tuple(pk.names[i] for i in idx)
+        got = arr(real.get_flow(u, IDs if kind == 'S' else (q, IDs)))
+        want = np.array(vals, float) * scale
+        den = np.maximum(np.abs(got), np.abs(want))
+        rel = np.where(den > 0, np.abs(got - want) / np.where(den > 0, den, 1), 0.0)
+        if rel.size and rel.max() > RT:
+            ctx.fail(f'ctor.flows|{region}|mismatch', f'given {vals} {u} for {IDs} in {q!r}' + (f' with total_flow={total!r}' if total is not None else '')
+                     + f': get_flow({u!r}) = {got.tolist()}, expected {want.tolist()}')
+    if total is not None:
+        got = real.get_total_flow(u)
+        if abs(got - total) > RT * max(abs(got), abs(total)):
+            ctx.fail(f'ctor.total|{region}|mismatch', f'total_flow={total!r} {u}: get_total_flow({u!r}) = {got!r}')
+    run.invariant(ch.choice('unit2', M.ALL_UNITS))
+    if positive:
+        ctx.nontriv(['ctor', kind, utag, dim, total is not None, labels, sorted(spec)])
+
+
 PROPS = {
+    'ctor': (prop_ctor, 1500, 20000),
     'history': (prop_history, 8000, 100000),
 }
